@@ -27,7 +27,7 @@ RULE = ("five views, one sub-oracle each (case['view']): json / csv / excel / df
         "STRT/STOP/STEP units (each line optionally absent) and first-curve unit are spellings of the recognised "
         "sets of defaults.DEPTH_UNITS in any letter case (Cyrillic ones as listed) or spellings outside them, in "
         "agreeing, partly-unrecognised, conflicting and all-unrecognised combinations, and reads it with "
-        "lasio.read. Expected values come from the description / the generated text, never from a second lasio "
+        "lasio.read under mnemonic_case upper / lower / preserve. Expected values come from the description / the generated text, never from a second lasio "
         "export. Non-trivial: (json/csv/excel/df) an integer or NaN header value, a text curve or NaN samples "
         "present; (depth) a recognised spelling that is not upper case or not 'M'/'FT'.")
 ASSUMPTIONS = [
